@@ -184,6 +184,20 @@ func runC04(w *vx.W) {
 	// 1024-, 4096-byte and halving readers
 	{
 		files := []namedStream{sAct3, sAct3BE, sSet, sBig, s4096, s8192, sDev}
+		// records of an unknown message that are larger than the read buffer (10 KB and 65 KB): skipped bytes are
+		// checksummed bytes
+		for _, nf := range []int{40, 255} {
+			d := fitmodel.Def{Local: 2, Global: 0xFF00}
+			for i := 0; i < nf; i++ {
+				d.Fields = append(d.Fields, fitmodel.FieldDef{Num: byte(i), Size: 255, Base: fitmodel.Byte})
+			}
+			body := make([]byte, d.DataLen())
+			for i := range body {
+				body[i] = byte(i*7 + 3)
+			}
+			recs := append(fitmodel.FileIdRecords(0, 4), recordDef(1, false).Bytes(), recordData(1, false, 1000000000, 60, 1), d.Bytes(), fitmodel.Data(2, body), recordData(1, false, 1000000001, 61, 2), fitmodel.Data(2, body))
+			files = append(files, single(fmt.Sprintf("unknown-records-of-%d-bytes", len(body)), fitmodel.File(fitmodel.DefaultHeader, recs...)))
+		}
 		var k int64
 		for _, s := range files {
 			step := len(s.B)/40 + 1
